@@ -290,8 +290,8 @@ def array_forms(eng, res, rnd, tier):
                     for _i in range(2):
                         data, ntop, aligned_end = u1_arrays.member_input(rnd, elem, plan, endian, align)
                         sigs = []
-                        if align and form in ("eof", "eof2d") and not aligned_end:
-                            sigs.append("F30")
+                        if align and form in ("eof", "eof2d") and (not aligned_end or esize is None):
+                            sigs.append("F30")   # (LEB128 elements are re-encoded canonically: the dump's length is not the input's)
                         if is_flag and signed:
                             sigs.append("F22")   # the inputs have elements with the sign bit set
                         sess.note(f"v = cs.{name}(bytes.fromhex({data.hex()!r})); assert cs.{name}(v.dumps()) == v")
